@@ -54,6 +54,18 @@ CLAIMED = {
          'arguments, KeyError) found by this check and fixed. pmap / shard_map / custom_vjp / eval_shape not run. No axioms.',
     technique='Coq proof (joint invariant of inner flatten and placed unflatten by fuel induction; placement injectivity) + per-run model-vs-implementation correspondence by vm_compute',
     ref='DESIGN.md section 5, C04'),
+  'C05': dict(
+    text='PARTIAL. Proved, for every transformed function, filters and variables, about a Gallina model of lift.pack (the building block of all lifted transforms: group_collections, inner '
+         'mutability = scope.mutable /\\ out filters /\\ mutable_filter, repack, publish_results): the function sees exactly the collections a `variables` filter matches (first match); collections '
+         'that are not lifted / not mutable / not selected for output come out untouched; "unmapped output variables" is unreachable; with default filters it runs on the caller\'s own '
+         'variables and mutability and its writes come back entry by entry. Tied to /repo per run: C01 module programs with nn.jit / nn.remat / identity nn.map_variables children (explicit '
+         'and automatic names) and nn.cond / nn.switch / nn.while_loop statements, init + 1-3 applies with changing mutable filters, static attributes and variable structure; each lifted '
+         'run is compared in Coq with Model/Linen.v on the plain equivalent (transformed class names, control flow resolved) and, on the real code, with the program run as plain Python.',
+    note='Trusted: Coq kernel, vm_compute, harness (plain_equivalent desugaring), jaxcompat, jax.jit / checkpoint / lax control flow. NOT proved: equality of the lifted and the plain program '
+         '(needs a semantics of tracing); decided per run. Keys drawn inside a jitted child are not compared (nn.jit forks RNGs: C09). Branch bodies only set declared variables and keep '
+         'shapes; every branch writes the same variables; trip counts >= 1. named_call, static/donate argnums, custom map_variables functions not covered. No axioms.',
+    technique='Coq proof (filter-partition lemmas over lift.pack) + per-run model-vs-implementation correspondence by vm_compute + lifted-vs-plain oracle on the real code',
+    ref='DESIGN.md section 5, C05'),
   'C08': dict(
     text='PARTIAL. A Gallina model of the state bookkeeping of nnx.vmap / nnx.scan / nnx.grad at the level of the argument\'s Variables: StateAxes.map_prefix (first matching filter), per-index '
          'views of axis groups, shared None groups with jax.vmap\'s batchedness tracked by dependency, scan with per-step slices, threaded Carry state and broadcast state re-read from the '
